@@ -61,7 +61,7 @@ func (i Inst) Coq() string {
 type ZoneSpec struct {
 	Name  string `json:"name"`
 	Off   int64  `json:"off"`   // fixed zones only
-	Fixed bool   `json:"fixed"` // false: IANA zone (monitors only, no Coq evaluation)
+	Fixed bool   `json:"fixed"` // false: IANA zone, evaluated in Coq over its extracted transition table (zone.go)
 }
 
 var (
@@ -170,7 +170,12 @@ type Case struct {
 	All49 bool     `json:"all49"` // sweep: additionally run the week helpers for every weekday x offset -3..3 (monitors only)
 	Class string   `json:"class"` // generator's boundary class (reporting only)
 	Impl  []Res    `json:"impl"`
+	// inst in a table zone: local midnight of the instant's civil day exists exactly once (package time), compared with
+	// MV.C19.ZoneModel.midnight_regular on the extracted table
+	MidReg bool `json:"mid_reg,omitempty"`
 
+	fullTab   bool           // table zone: evaluated over the whole extracted table (sub-harness dsttab), not over a window of it
+	skips     []string       // monitor checks skipped for this case (see mon.skip)
 	sweepViol []vh.Violation // sweep: monitor hits collected while the block ran
 	sweepN    int            // sweep: instants evaluated
 	sweepNT   int            // sweep: of which on a boundary
@@ -197,8 +202,11 @@ func (c *Case) coqQuery() string {
 	panic("kind " + c.Kind)
 }
 
-// coqCase returns "" for cases that the fixed-offset Coq model cannot evaluate (IANA zones).
+// coqCase: the Coq term of the case ("" = not evaluated in Coq).
 func (c *Case) coqCase(id int) string {
+	if !c.Zone.Fixed {
+		return c.coqZCase(id) // IANA zone: evaluated over its transition table (MV.C19.ZoneRun)
+	}
 	if !c.Zone.Fixed || !c.Local.Fixed || (c.Kind == "pair" && !c.Zone2.Fixed) {
 		return ""
 	}
